@@ -52,7 +52,7 @@ Ltac unf :=
        s_lt s_le s_eq s_int s_ceil s_floor
        start_count_c2c start_end_total end_start_total x_start_c2c count_start_c2c x_end_c2c count_end_c2c
        x_total_c2c count_total_c2c d_min count_total_start c2c_count_start c2c_count_end c2c_count_total
-       total_count_c2c total_start_end valid_length guard bind option_map Rltb Rleb Reqb pyint negb andb orb Rabs].
+       total_count_c2c total_start_end valid_length guard bind option_map Rltb Rleb Reqb pyint negb andb orb].
 
 (** the innermost scrutinee at the head of a term *)
 Ltac head_scrut t :=
@@ -90,7 +90,10 @@ Ltac contra :=
         | match goal with H : 0 < 1 / ?y |- _ => apply div1_pos in H; lra end
         | match goal with H : ~ 0 < 1 / ?y |- _ => apply H; apply Rdiv_lt_0_compat; lra end ].
 (** equal values: syntactically, as polynomials / fractions, or argument by argument *)
-Ltac eqv := first [ reflexivity | ring | lra | lia | (field; lra) | (f_equal; eqv) ].
+Ltac eqv_n n :=
+  first [ reflexivity | ring | lra | lia | (field; lra)
+        | lazymatch n with S ?k => progress f_equal; eqv_n k end ].
+Ltac eqv := eqv_n 12%nat.
 (** a leaf that cannot be closed is left open (no backtracking into the case analysis: a difference between
     source and model must fail fast, not after an exponential search) *)
 Ltac finish :=
@@ -106,7 +109,20 @@ Ltac go :=
       tryif is_done l then (tryif is_done r then finish else (split_head r; go)) else (split_head l; go)
   | |- _ => idtac
   end.
-Ltac abs_cases := repeat match goal with |- context [Rcase_abs ?a] => destruct (Rcase_abs a) end.
+(** [abs(a - b)] and [abs(b - a)] are the same condition: bring equal / opposite arguments of [Rabs] to one form,
+    then split on the sign of each remaining argument *)
+Ltac norm_abs :=
+  repeat match goal with
+  | |- context [Rabs ?x] =>
+      match goal with
+      | |- context [Rabs ?y] =>
+          lazymatch x with y => fail | _ => idtac end;
+          first [ replace (Rabs x) with (Rabs y) by (f_equal; ring)
+                | replace (Rabs x) with (Rabs y) by (rewrite <- (Rabs_Ropp y); f_equal; ring) ]
+      end
+  end.
+Ltac abs_cases :=
+  norm_abs; unfold Rabs; repeat match goal with |- context [Rcase_abs ?a] => destruct (Rcase_abs a) end.
 Ltac src_eq := intros; unf; abs_cases; go; fail "the translated source differs from the model (or the difference is beyond this tactic)".
 
 (** a [Prop]-valued match: split until nothing is left to split *)
